@@ -1,7 +1,7 @@
 (* C39 - proofs about the pinned model of Decimal.Float64 (Model/DecFloat.v):
    the reference reader realises the assumption made on strconv.ParseFloat; Clinger's fast path
    (fast10_correct); the partial theorems on the guard where the pinned code is right; the
-   refutations of the full statements by computed witnesses. The lemmas are reused by
+   refutations live in Proofs/DecFloatRefuted.v. The lemmas are reused by
    Proofs/DecFloatFixed.v for the repaired code. *)
 From Coq Require Import ZArith NArith List Bool Reals Lia Lra.
 From Flocq Require Import Core.Core IEEE754.BinarySingleNaN.
@@ -476,63 +476,3 @@ Proof.
 Qed.
 
 End Pinned.
-
-
-(* there is only one correctly rounded result *)
-Lemma correctly_rounded_unique : forall neg x f g,
-  correctly_rounded neg x f -> correctly_rounded neg x g -> f = g.
-Proof.
-  intros neg x f g. unfold correctly_rounded.
-  destruct (Rlt_bool (Rabs (rnd x)) (bpow radix2 emax)).
-  - intros (F1 & F2 & F3) (G1 & G2 & G3). apply B2R_Bsign_inj; congruence.
-  - congruence.
-Qed.
-
-(* a base-10 Decimal on which the model and the reference reader differ is a counterexample *)
-Lemma refute_by_reference : forall pf d, d_neg d = false -> d_bin d = false -> (d_mant d <> 0)%N ->
-  bits_of (fst (float64_of pf d)) <> bits_of (ref_parse_float (pos_of (Z.of_N (d_mant d))) (d_e d)) ->
-  ~ correctly_rounded (d_neg d) (value d) (fst (float64_of pf d)).
-Proof.
-  intros pf d Hn Hb Hw Hne C. apply Hne. f_equal.
-  apply (correctly_rounded_unique (d_neg d) (value d)); auto.
-  unfold value, abs_value, d_radix. rewrite Hn, Hb, <- (N_pos_of _ Hw).
-  apply ref_parse_float_correct.
-Qed.
-
-Definition d_1e23 : decimal := {| d_neg := false; d_bin := false; d_mant := 1; d_exp := 24 |}.
-Definition d_77em169 : decimal := {| d_neg := false; d_bin := false; d_mant := 77; d_exp := -167 |}.
-Definition d_0p1 : decimal := {| d_neg := false; d_bin := false; d_mant := 1; d_exp := 0 |}.
-
-(* 1e23: table entry pow5s[23] *)
-Lemma refuted_table_entry : forall pf, ~ correctly_rounded (d_neg d_1e23) (value d_1e23) (fst (float64_of pf d_1e23)).
-Proof.
-  intros pf. apply refute_by_reference.
-  - reflexivity.
-  - reflexivity.
-  - discriminate.
-  - vm_compute. discriminate.
-Qed.
-
-(* 77e-169: three roundings *)
-Lemma refuted_double_rounding : forall pf, ~ correctly_rounded (d_neg d_77em169) (value d_77em169) (fst (float64_of pf d_77em169)).
-Proof.
-  intros pf. apply refute_by_reference.
-  - reflexivity.
-  - reflexivity.
-  - discriminate.
-  - vm_compute. discriminate.
-Qed.
-
-Lemma B2R_of_B2SF : forall (f : f64) m e, B2SF f = SpecFloat.S754_finite false m e -> B2R f = IZR (Z.pos m) * bpow radix2 e.
-Proof. intros f m e. destruct f; simpl; try discriminate. intros H. inversion H. reflexivity. Qed.
-
-(* 0.1 is reported exact *)
-Lemma refuted_exact_flag : forall pf, snd (float64_of pf d_0p1) = true /\ B2R (fst (float64_of pf d_0p1)) <> value d_0p1.
-Proof.
-  intros pf. split. vm_compute. reflexivity.
-  rewrite (B2R_of_B2SF _ 7205759403792794 (-56)) by (vm_compute; reflexivity).
-  unfold value, abs_value, d_radix, d_e, d_digits. cbn [d_neg d_bin d_mant d_exp d_0p1].
-  change (0 - Zdigits radix10 (Z.of_N 1))%Z with (-1)%Z.
-  change (bpow radix2 (-56)) with (/ 72057594037927936). change (bpow radix10 (-1)) with (/ 10).
-  simpl IZR. lra.
-Qed.
